@@ -332,12 +332,13 @@ impl<L: LSPLang> Backend<L> {
     let edits: Vec<_> = diagnostics
       .into_iter()
       .filter_map(|d| {
-        if d.range.start < last {
+        let rewrite_data = RewriteData::from_value(d.data?)?;
+        let range = rewrite_data.range.unwrap_or(d.range);
+        if range.start < last {
           return None;
         }
-        let rewrite_data = RewriteData::from_value(d.data?)?;
-        let edit = TextEdit::new(d.range, rewrite_data.fixed);
-        last = d.range.end;
+        let edit = TextEdit::new(range, rewrite_data.fixed);
+        last = range.end;
         Some(edit)
       })
       .collect();
